@@ -28,8 +28,9 @@ PROP = "C06"
 F64 = torch.float64
 torch.set_num_threads(1)
 
-TOL_VAL = 1e-8          # entrywise model vs implementation (oracle answers are replayed, so only summation order differs)
-TOL_DIRECT = 1e-8       # property predicate, direct methods
+TOL_VAL = 1e-10         # entrywise model vs implementation (oracle answers are replayed, so only summation order differs)
+TOL_DIRECT = 1e-10      # property predicate, direct methods: two orders below the smallest documented jitter (1e-8), so
+                        # that a factor of A + jitter*I is never accepted as a factor of A
 TOL_KRYLOV = 2e-4       # property predicate when a Lanczos-based function ran (documented tridiagonal jitter 1e-6 * min diag)
 
 DEFAULT_CLASSES = {"Dense", "UserMinimal", "Toeplitz", "Sum", "PsdSum", "Mul", "Matmul", "Kernel", "LowRankRoot", "Zero",
@@ -237,7 +238,8 @@ def lib_defaults():
 
 def settings_lit(case):
     d = lib_defaults()
-    c16 = "(MkSettings %s %s %s %s false)" % (fl(d["f"]), fl(d["d"]), fl(d["h"]), common.zlit(d["mt"]))
+    dbl = d["d"] if case.get("cj") is None else float(case["cj"])       # settings.cholesky_jitter(double_value=cj)
+    c16 = "(MkSettings %s %s %s %s false)" % (fl(d["f"]), fl(dbl), fl(d["h"]), common.zlit(d["mt"]))
     return "(MkSt %s %s %s %s %s %s)" % (common.zlit(case.get("mcs", 800)), common.zlit(case.get("mrs", 100)),
                                           common.coq_bool(case.get("fast", True)), c16,
                                           common.coq_bool(torch.get_default_dtype() == torch.float32), fl(1e-7))
@@ -259,7 +261,12 @@ OUT_VECS = {"cholesky": [], "t_cholesky": [], "root": [], "root_inv": [], "eigh"
 
 def case_lits(case, res, values, pred, ptol, member_cap=6):
     """Coq `case` literals, one per compared batch member.  Returns (list of literals, list of member indices)"""
-    batch = own_batch(case["expr"])
+    eff = res.get("eff_expr", case["expr"])
+    batch = own_batch(eff)
+    kind_ = case.get("kind", "plain")
+    # solver events: plain cases exactly (as sets); histories: the observed call may be served from caches, so its
+    # primitives are a SUBSET of what a fresh computation runs; cat_rows: the caches were filled by cat_rows itself
+    evmode = {"plain": 0, "mixed": 0, "hist": 1, "catrows": 2}[kind_]
     idxs = list(itertools.product(*[range(s) for s in batch])) if batch else [()]
     if len(idxs) > member_cap:
         idxs = idxs[:member_cap // 2] + idxs[-(member_cap - member_cap // 2):]
@@ -270,6 +277,11 @@ def case_lits(case, res, values, pred, ptol, member_cap=6):
     lits = []
     for bi in idxs:
         mats, vecs = [], []
+        # the singular members of a mixed batch legitimately carry the documented jitter (C16): no strict predicate there
+        sing_i = kind_ == "mixed" and bool(bi) and bi[0] in case.get("singular", [])
+        pred_i = pred and not sing_i
+        # ... and the inverse root of (singular + 1e-8 I) is conditioned like 1e8: not comparable entrywise
+        values_i = values and not (sing_i and case["op"] == "root_inv")
         if res["kind"] == "ok":
             for nm in OUT_MATS[case["op"]]:
                 v = res["out"].get(nm)
@@ -283,9 +295,9 @@ def case_lits(case, res, values, pred, ptol, member_cap=6):
                 x = O.totensor(res["out"][nm])
                 xm = x[sub_index(bi, list(x.shape[:-1]))] if x.dim() > 1 else x
                 vecs.append(vec_lit(xm))
-        lits.append("(MkCase %s %s [%s] %s %s %s %s %s %s %s %d %s [%s] [%s])" % (
-            member_lit(case["expr"], bi), q, "; ".join(query_lit(p) for p in case.get("pre", [])), ch, st, tabs, common.coq_bool(values), common.coq_bool(pred),
-            fl(TOL_VAL), fl(ptol), kind, evs, "; ".join(mats), "; ".join(vecs)))
+        lits.append("(MkCase %s %s [%s] %s %s %s %s %s %s %s %d %s %d [%s] [%s])" % (
+            member_lit(eff, bi), q, "; ".join(query_lit(p) for p in case.get("pre", [])), ch, st, tabs, common.coq_bool(values_i), common.coq_bool(pred_i),
+            fl(TOL_VAL), fl(ptol), kind, evs, evmode, "; ".join(mats), "; ".join(vecs)))
     return lits, idxs
 
 
@@ -309,15 +321,17 @@ def effective_method(case, res):
     if m is not None:
         return m
     if case["op"] in ("root", "root_inv"):
-        for cls, n, meth in res.get("chosen", []):
-            return meth
+        ch = res.get("chosen", [])
+        if ch:
+            # plain cases: the first selection is the observed object's; histories: the last one
+            return (ch[0] if case.get("kind", "plain") == "plain" else ch[-1])[2]
         return "default"
     if case["op"] == "diag":
         if any(e[0] == "lanczos" for e in res["events"]):
             return "lanczos"
         if case.get("cell", "").startswith(("Kron",)):
             return "symeig"
-        n = opbuild.dense(case["expr"], F64).shape[-1]
+        n = opbuild.dense(res.get("eff_expr", case["expr"]), F64).shape[-1]
         return "symeig" if n <= int(case.get("mcs", 800)) else "lanczos"
     return "-"
 
@@ -340,7 +354,7 @@ def direct_check(case, res):
             return None, False, tol
         return "raised %s: %s" % (res["exc"], (res["msg"] or "")[:120]), False, tol
     full = all(e[2] >= e[1] for e in res["events"] if e[0] == "lanczos")
-    n = opbuild.dense(case["expr"], F64).shape[-1]
+    n = opbuild.dense(res.get("eff_expr", case["expr"]), F64).shape[-1]
     if case.get("method") == "pivoted_cholesky":
         full = full and int(case.get("mrs", 100)) >= n
     if krylov and not full:
@@ -348,6 +362,19 @@ def direct_check(case, res):
         return None, False, tol
     if case["cell"] in G.SINGULAR_CELLS and case["cell"] == "RootLow" and case["op"] == "root_inv":
         return None, False, tol
+    if case.get("kind") == "mixed":
+        # member by member: the p.d. members must be factorised EXACTLY (no jitter leaking from the singular member); the
+        # singular members carry the documented jitter of psd_safe_cholesky (C16's subject) and are only compared with the model
+        A = opbuild.dense(case["expr"], F64)
+        for i in range(A.shape[0]):
+            if i in case.get("singular", []):
+                continue
+            sub_expr = {"cls": "Dense", "t": O.tolist(A[i])}
+            sub_out = {k: (None if v is None else O.tolist(O.totensor(v)[i])) for k, v in res["out"].items()}
+            w = O.predicate(dict(case, expr=sub_expr), dict(res, out=sub_out, eff_expr=sub_expr), tol_direct=TOL_DIRECT, tol_krylov=TOL_KRYLOV)
+            if w:
+                return "batch member %d (p.d.; member(s) %s of the batch are singular): %s" % (i, case.get("singular"), w), True, tol
+        return None, True, tol
     return O.predicate(case, res, tol_direct=TOL_DIRECT, tol_krylov=TOL_KRYLOV), True, tol
 
 
@@ -356,7 +383,7 @@ def failure_key(case, res, what):
         "shape" if "shape" in what else ("orthonormality" if ("^T U" in what or "^T V" in what or "^T Q" in what) else "value"))
     op = case["op"][2:] if case["op"].startswith("t_") else case["op"]
     meth = effective_method(case, res)
-    return {"cell": case.get("cell"), "op": op, "method": meth, "fail": fail,
+    return {"cell": case.get("cell"), "kind": case.get("kind", "plain"), "op": op, "method": meth, "fail": fail,
             "eigen": meth in ("symeig", "svd", "diagonalization"),
             "batched": bool(case.get("batch")),
             "krylov_truncated": any(e[0] == "lanczos" and e[2] < e[1] for e in res["events"])}
@@ -364,7 +391,8 @@ def failure_key(case, res, what):
 
 # ------------------------------------------------------------------------------------------------ run
 def slim(case, res=None):
-    d = {k: case[k] for k in ("cell", "batch", "op", "method", "upper", "mcs", "mrs", "fast", "inject", "pre", "expr") if k in case}
+    d = {k: case[k] for k in ("cell", "kind", "batch", "op", "method", "upper", "mcs", "mrs", "fast", "inject", "pre", "steps", "target",
+                              "singular", "cj", "o", "B", "D", "expr") if k in case}
     if res is not None:
         d["observed"] = {"kind": res["kind"], "exc": res["exc"], "msg": res["msg"], "events": res["events"],
                          "chosen": res["chosen"], "out": res["out"]}
@@ -394,7 +422,7 @@ def run(ctx):
     lits, owners = [], []          # Coq case literals and (case index, member index)
     cases, results, directs = [], [], []
     counters = {"ok": 0, "raise": 0}
-    by_route, by_cell, by_fail = {}, {}, {}
+    by_route, by_cell, by_fail, by_kind = {}, {}, {}, {}
     distinct = set()
     n_direct_fail = 0
     for ci, it in enumerate(grid):
@@ -408,7 +436,9 @@ def run(ctx):
         route = "%s/%s" % (case["op"], effective_method(case, res))
         by_route[route] = by_route.get(route, 0) + 1
         by_cell[case["cell"]] = by_cell.get(case["cell"], 0) + 1
-        distinct.add((case["cell"], tuple(case["batch"]), case["op"], effective_method(case, res), case["upper"],
+        by_kind[case.get("kind", "plain")] = by_kind.get(case.get("kind", "plain"), 0) + 1
+        distinct.add((case["cell"], case.get("kind", "plain"), json.dumps(case.get("steps")), case.get("target"), case.get("cj"), case.get("o"),
+                      tuple(case["batch"]), case["op"], effective_method(case, res), case["upper"],
                       tuple(map(tuple, res["events"])), res["kind"]))
         if what:
             n_direct_fail += 1
@@ -475,7 +505,7 @@ def run(ctx):
         "rule": "one evaluation = one batch member of one (cell, batch, query, method, upper, settings, cache state) grid item run on the "
                 "implementation and in Coq; distinct = distinct (cell, batch shape, query, effective method, upper, set of solver "
                 "primitives with sizes, outcome kind); the grid is enumerated deterministically, the seed only draws matrix entries",
-        "grid_items": len(grid), "outcomes": counters, "routes": by_route, "cells": by_cell,
+        "grid_items": len(grid), "outcomes": counters, "routes": by_route, "cells": by_cell, "kinds": by_kind,
         "direct_property_failures": n_direct_fail, "direct_failures_by_key": by_fail,
         "mismatches": len(mism), "model_only_disagreements": n_model_only,
         "run_seconds": round(t_run, 1),
@@ -526,7 +556,8 @@ def replay(rp):
         return 1
     res = O.run_case(case)
     what, applicable, tol = direct_check(case, res)
-    print("case:", {k: case.get(k) for k in ("cell", "batch", "op", "method", "upper", "mcs", "mrs", "fast", "inject", "pre")})
+    print("case:", {k: case.get(k) for k in ("cell", "kind", "batch", "op", "method", "upper", "mcs", "mrs", "fast", "inject", "pre", "steps",
+                                             "target", "singular", "cj", "o")})
     print("observed:", res["kind"], res["exc"], res["msg"], "events", res["events"], "chosen", res["chosen"])
     print("property failure:" if what else "property holds on this case", what or "")
     return 1 if what else 0
